@@ -44,7 +44,7 @@ def c14(tier, rep):
     E.usage_variants_pass(rep, E.src_corpus() + E.src_limits() + E.src_generated(60, SEED + 4))
 
 
-def _stream_rejection(rep, sources):
+def _stream_rejection(rep, sources, only_kind=None):
     """The same verdict through the stream layer, whatever is printed: under each of the 8 option sets a source yields parseError envelopes exactly when the
     parser (whose verdict and errors the traces validate against the specification) rejects it, one envelope per error with its line, column and message."""
     import stream as S
@@ -76,9 +76,40 @@ def _stream_rejection(rep, sources):
                 bad = "rejected by the parser but not by the stream" if o else "accepted by the parser but rejected by the stream"
             elif pe and (len(pe) != len(seg) or got != want):
                 bad = "the stream's parseError envelopes are not the parser's errors, one each"
+            if bad and only_kind and not any(only_kind in (w[2] or "") for w in want):
+                bad = None
             if bad:
                 rep.violation({"kind": "stream-rejection"}, {"engine": "stream-rejection", "what": bad, "opts": list(opts), "source": s, "parser_errors": want[:3], "stream": got[:3]})
                 break
+    # ... and when the stream's parser is switched to stop at the first error (an attribute of the public parser object): the one error as the one envelope
+    from gherkin.stream.gherkin_events import GherkinEvents
+    from gherkin.errors import ParserError
+    ge = GherkinEvents(GherkinEvents.Options(print_source=True, print_ast=True, print_pickles=True))
+    ge.parser.stop_at_first_error = True
+    for n, s in srcs:
+        p = Parser()
+        p.stop_at_first_error = True
+        try:
+            p.parse(s, TokenMatcher("en"))
+            want = []
+        except CompositeParserException as x:
+            want = [(e.location["line"], e.location.get("column"), str(e)) for e in x.errors]
+        except ParserError as e:
+            want = [(e.location["line"], e.location.get("column"), str(e))]
+        except Exception:  # noqa: BLE001
+            continue
+        rep.case(("stream-rejection-stop", s))
+        try:
+            seg = list(ge.enum({"source": {"uri": n + ".feature", "data": s, "mediaType": S.MEDIA}}))
+            got = [(e["parseError"]["source"]["location"].get("line"), e["parseError"]["source"]["location"].get("column"), e["parseError"]["message"]) for e in seg if "parseError" in e]
+            bad = None if (got == want and (not want or len(seg) == len(got))) else "with stop_at_first_error set on the stream's parser the envelopes are not the parser's single error"
+        except Exception as x:  # noqa: BLE001
+            got, bad = [], "with stop_at_first_error set on the stream's parser " + type(x).__name__ + " escaped from GherkinEvents.enum: " + str(x)[:200]
+        if bad and only_kind and not any(only_kind in (w[2] or "") for w in want):
+            bad = None
+        if bad:
+            rep.violation({"kind": "stream-rejection-stop"}, {"engine": "stream-rejection", "what": bad, "source": s, "parser_errors": want[:3], "stream": got[:3]})
+            break
 
 
 def fuzz_sources(n, seed):
@@ -127,6 +158,7 @@ def c01(tier, rep):
             src = r["sources"][m["src"] - 1] if m else r["sources"][0]
             rep.violation({"kind": "stream-totality"}, {"engine": "Trace_Stream", "what": "stream output differs from the specification / foreign exception",
                                                         "source": "".join(map(chr, src["data"])), "notes": r["notes"], "detail": m})
+    _stream_rejection(rep, E.src_limits() + E.src_corpus() + E.src_noisy(60 if q else 600, SEED + 5) + fuzz_sources(60, SEED + 2))
     # tag lines INCLUDING the class of the recorded C04/C14 finding ('@ x'): whatever is reported there, it is a tag list or the library's error, never another exception
     import linelevel as LL
     ls, badt, res = LL.tags(5 if q else 6, (64, 32, 35, 120, 9), (32,), embed_every=1, tag="totality")
